@@ -42,6 +42,7 @@ SHRINK_MAX_EXAMPLES = 4000
 
 TOP = fs.TOP
 _TMP_BASE: list = [None]
+_OUTCOME: list = []  # classes observed by the last check_case (what CPython / Griffe made of the layout)
 
 
 # ----------------------------------------------------------------------------------------------- Griffe side
@@ -256,6 +257,7 @@ def check_case(case) -> list[Fail]:
             view = fs.CPythonView(eff, pkg_style_top=True)
         base = griffe_load(TOP, paths, "sorted", root)
         add(judge(base, view, root))
+        _OUTCOME[:] = _outcome(view, base)
         judged = [base]
         # clause 5: listing order
         for order in case["orders"]:
@@ -281,6 +283,35 @@ def check_case(case) -> list[Fail]:
     return fails
 
 
+def _outcome(view: fs.CPythonView, tree: dict | None) -> list[str]:
+    tspec = view.spec(TOP)
+    if tspec is None:
+        top = "absent"
+    elif fs._compiled(tspec[1]):
+        top = "compiled"
+    elif tspec[0] == "ns":
+        top = f"namespace:{min(len(tspec[2]), 3)}-portions"
+    elif tspec[0] == "pkg":
+        top = "pkg-style-namespace" if view.pkg_style_top else "regular-package"
+    else:
+        top = "plain-module"
+    out = [f"cpython-top:{top}", f"griffe-top:{'not-found' if tree is None else 'found'}"]
+    if top not in ("absent", "compiled"):
+        walked = view.walk(TOP)
+        n = sum(1 for k, (kind, origin, compiled) in walked.items() if not compiled and origin)
+        out.append(f"walker-source-modules:{'0' if n == 0 else '1-3' if n <= 3 else '4-9' if n <= 9 else '10+'}")
+        if any(compiled for _, _, compiled in walked.values()):
+            out.append("walker-compiled-modules")
+    if tree is not None:
+        n = len(tree)
+        out.append(f"griffe-modules:{'1' if n == 1 else '2-4' if n <= 4 else '5-10' if n <= 10 else '11+'}")
+        if any(isinstance(v["file"], list) and "." in k for k, v in tree.items()):
+            out.append("griffe-namespace-subpackage")
+        if any(isinstance(v["file"], str) and v["file"].endswith(".pyi") for v in tree.values()):
+            out.append("griffe-stub-only-module")
+    return out
+
+
 def _features(case) -> set[str]:
     return fs.features(case["layout"])
 
@@ -289,7 +320,8 @@ def _describe(case):
     feats = _features(case)
     nontrivial = "shared-top" in feats or "file+dir" in feats
     key = case["layout"] if nontrivial else None
-    classes = sorted(feats) + [f"order:{'perm' if isinstance(o, int) else o}" for o in case["orders"]]
+    classes = sorted(feats) + [f"order:{'perm' if isinstance(o, int) else o}" for o in case["orders"]] + list(_OUTCOME)
+    _OUTCOME.clear()
     sample = None
     if nontrivial and "ns-several-portions" in feats:
         sample = case
